@@ -11,7 +11,9 @@
 // observation line per case:
 //   (trace (step (fib (<table> <fam> <id> (<nh>...))...) (nht (r <a>)|(u <a>)...)
 //                (rib (d <fam> <id> (p <src> <pid> <nh> <flt> <stale> <llgr> <lp> <asl> <org> <eb> <cl> <rid> (<rt>...))...)...))...
-//          [(feed (<addr> <count>)...)])
+//          (order ok|underflow) [(feed (<addr> <count>)...)])
+// `order`: replaying the register/unregister requests of the whole run in the order sent, no
+// unregister met an address without outstanding registration.
 // With `(feed t)` every register/unregister request of the run is afterwards sent, in the
 // order the TableManager sent it, to the real `run_service_loop`, whose final count per
 // address is measured.  `(svc ...)` cases drive the real `run_service_loop` with
@@ -276,6 +278,8 @@ struct World {
     cur: Vec<Arc<table::Source>>,
     /// every register (true) / unregister (false) request in the order sent
     sent: Vec<(bool, u64)>,
+    outstanding: std::collections::HashMap<u64, u64>,
+    underflow: bool,
 }
 
 impl World {
@@ -313,19 +317,29 @@ impl World {
                 kernel::verif::RequestMirror::RegisterNexthop(a) => {
                     nht.push((addr_id(&a), 0));
                     self.sent.push((true, addr_id(&a)));
+                    *self.outstanding.entry(addr_id(&a)).or_insert(0) += 1;
                 }
                 kernel::verif::RequestMirror::UnregisterNexthop(a) => {
                     nht.push((addr_id(&a), 1));
                     self.sent.push((false, addr_id(&a)));
+                    // in the order sent: an unregister for an address nothing is outstanding for
+                    let c = self.outstanding.entry(addr_id(&a)).or_insert(0);
+                    if *c == 0 {
+                        self.underflow = true;
+                    } else {
+                        *c -= 1;
+                    }
                 }
                 kernel::verif::RequestMirror::CreateVrf { .. } | kernel::verif::RequestMirror::DeleteVrf { .. } => {}
             }
         }
         // canonical order (hash-map iteration order of shards/destinations/VRFs is not modelled):
-        // FIB requests stably by (table, prefix); tracking requests stably by address, so that the
-        // requests for one address keep the order in which they were sent
+        // FIB requests stably by (table, prefix); tracking requests: registers (by address) before
+        // unregisters (by address).  The order in which the requests of different destinations
+        // reach the channel depends on hash-map iteration; the sent order is judged by `underflow`
+        // (below) and, in feed cases, by the real service loop.
         fib.sort_by(|a, b| (a.0, a.1, a.2).cmp(&(b.0, b.1, b.2)));
-        nht.sort_by(|a, b| a.0.cmp(&b.0));
+        nht.sort_by(|a, b| (a.1, a.0).cmp(&(b.1, b.0)));
         (fib, nht)
     }
 
@@ -567,7 +581,7 @@ fn run_case(line: &str) -> Option<String> {
     let fams: Vec<Family> = defer.iter().filter_map(|f| family_of(*f)).collect();
     tables.start_deferral_families(&fams);
     let cur = plist.iter().enumerate().map(|(k, p)| World::new_source(k, *p)).collect();
-    let mut w = World { tables, rx, peers: plist, cur, sent: Vec::new() };
+    let mut w = World { tables, rx, peers: plist, cur, sent: Vec::new(), outstanding: Default::default(), underflow: false };
     let mut steps = Vec::new();
     for o in ops.tagged("ops")? {
         w.op(o)?;
@@ -598,6 +612,7 @@ fn run_case(line: &str) -> Option<String> {
             ],
         ));
     }
+    steps.push(Term::tag("order", vec![Term::atom(if w.underflow { "underflow" } else { "ok" })]));
     if feed {
         steps.push(RT.with(|rt| rt.block_on(feed_async(w.sent.clone()))));
     }
